@@ -370,6 +370,11 @@ def _resolve_helper(index, fi, call):
         return None
     if name in _OPTS["exclude"]:
         return None
+    if target.cls is not None and isinstance(f, ast.Attribute) and f.value.id in ("self", "cls"):
+        # dynamic dispatch: a method that a subclass overrides is not the one that runs for that subclass's instances
+        for k in index.all_classes():
+            if k is not target.cls and target.cls in index.bases_of(k) and k.method(name) is not None:
+                return None
     if f"{target.module.rel}::{target.qual}" in _anchors() and not _OPTS["allow_anchors"]:
         return None
     if target.cls is not None and isinstance(f, ast.Attribute) and f.value.id == "self" and "classmethod" in target.decorators and \
